@@ -63,6 +63,17 @@ PROPS = {
         ],
         "assumptions": E1_ASSUME,
     },
+    "C15": {
+        "level": "fault_enumeration",
+        "engine": "explore (choice-tree DFS over environment answers)",
+        "technique": "exhaustive enumeration of environment answers at every step of the real Authorize flow (scripted http.Client and AuthorizationCodeFetcher): all paths with <=2 (thorough 3) non-default answers, crossed with the full product of client configuration x authorization result x token answer; a monitor judges every execution",
+        "claim": "challenge (5 forms) x protected-resource metadata answers at each of the three locations (ok, resource mismatch, http / javascript: / empty authorization_servers, 404, 500, wrong content type) x authorization-server metadata answers at each location (ok, issuer mismatch, no PKCE, http token endpoint, data:/javascript: fields incl. javascript: with a loopback authority, 404, 500) x registration answers x {CIMD, pre-registered with matching/other/no issuer, DCR} x returned state (ok, two mismatches) x returned iss (absent, matching, other) x iss support x token endpoint (200/400/500): every request goes to an https or loopback URL, the user is never sent to a script-scheme URL, the code is exchanged only with a matching state and a passing RFC 9207 check and never at endpoints of metadata that must be rejected, pre-registered credentials never reach another issuer, and an error (or failed check) leaves the token source unchanged",
+        "note": "more than 2 (3) simultaneous faulty answers and TLS-level behaviour are outside the bound; URLs are judged by scheme/host as the client would dial them",
+        "parts": [
+            {"pkg": "auth", "mode": "plain", "test": "TestVerifC15", "two_phase": True},
+        ],
+        "assumptions": [],
+    },
     "C16": {
         "level": "model_checking",
         "engine": "explore (bounded-exhaustive enumeration)",
